@@ -181,8 +181,8 @@ def run_property(ctx, pid, block_kind, what):
     bl = block_runs(ctx, bins["flatblock"], block_kind, 200 if quick else 4000)
     kd = bl.get("contracts_empty_code_only_in_oracle", 0)
     if kd:
-        core.log("note: %d block case(s) where only stock revm's bundle.contracts holds the KECCAK_EMPTY -> empty-code entry "
-                 "(parallel path commits `code: None` for accounts read back from multi-version memory); not part of the %s statement, reported in the evidence" % (kd, pid))
+        core.log("regression: %d block case(s) where only stock revm's bundle.contracts holds the KECCAK_EMPTY -> empty-code entry "
+                 "(Basic entries of code-less accounts must keep their `code` field, incarnation_db.rs:171); reported as MISMATCH" % kd)
     concrete = []
     for f in po["fails"][:3]:
         concrete.append(dict(kind="in-order block on the real IncarnationDb vs stock revm State", detail=f,
@@ -212,6 +212,9 @@ def run_property(ctx, pid, block_kind, what):
         op_sequence=dict(cases=d["cases"], distinct=d["distinct"], kinds=d["kinds"], size_lines=d["size"], stats=d["stats"], mismatching_cases=len(d["diffs"])),
         property_oracle=dict((k, v) for k, v in po.items() if k != "fails"),
         block_runs=dict((k, v) for k, v in bl.items() if k not in ("mismatch_lines",)),
+        bundle_contracts_note="the block runs compare BundleState::contracts strictly; a bundle that lacks revm's contracts[KECCAK_EMPTY] entry "
+                              "(the difference repaired at incarnation_db.rs:171: Basic entries keep the code field of code-less accounts) is a MISMATCH, "
+                              "counted in block_runs.contracts_empty_code_only_in_oracle",
         samples=d["samples"],
     )
     return ctx.finish("proof", cov, [
